@@ -248,6 +248,18 @@ def run_args(spec, rec, lib):
                 arg = next(iter(doc["signatures"].values()))
             if name == "checkformat_delegations" and isinstance(doc.get("signed"), dict):
                 arg = doc["signed"].get("delegations")
+            if rng.random() < 0.3 and type(arg) is dict:
+                # the same content held in a mapping with a __missing__ hook (collections.defaultdict): looking must not insert
+                import collections
+
+                arg = collections.defaultdict(rng.choice([str, dict, lambda: None, lambda: palette.SIG]), arg)
+                fp_dd = boundary.fingerprint(dict(arg))
+                out = boundary.call(lib, getattr(C, name), arg)
+                if boundary.fingerprint(dict(arg)) != fp_dd:
+                    rec.violation("argument-mutation/" + name + "/defaultdict-gained-entries",
+                                  "%s inserted entries into (or otherwise changed) the mapping it was asked to check" % name,
+                                  {"kind": "validator", "fn": name, "doc": case["new"]})
+                rec.count("defaultdict_held_arguments")
             out = boundary.call(lib, getattr(C, name), arg)
             mutated = boundary.fingerprint(doc) != fp
             fn = name
